@@ -222,6 +222,9 @@ enum Kind {
     Bin,  // 0/1 features, two or three classes
     Cnt,  // count features 0..4
     Cat,  // categorical features 0..2 (every category present in every column)
+    BinZ, // as Bin / Cnt / Cat, with a STRUCTURAL ZERO: feature 0 is never on (count 0; category 2
+    CntZ, // never seen) within the first class.  The data are finite; a naive-Bayes model fitted
+    CatZ, // without smoothing (alpha = 0) then legitimately stores ln(0) = -inf
     Blob, // unsupervised: a few well separated integer clusters + an outlier
 }
 
@@ -275,15 +278,15 @@ fn gen_data(kind: Kind, rng: &mut StdRng, p_fixed: Option<usize>) -> Data {
         let ns = [8usize, 9, 11, 12, 16, 16, 20, 24];
         let n = ns[rng.gen_range(0..ns.len())];
         let p = p_fixed.unwrap_or_else(|| match kind {
-            Kind::Bin | Kind::Cnt | Kind::Cat => rng.gen_range(2..=4),
+            Kind::Bin | Kind::Cnt | Kind::Cat | Kind::BinZ | Kind::CntZ | Kind::CatZ => rng.gen_range(2..=4),
             Kind::Blob => rng.gen_range(2..=3),
             _ => rng.gen_range(1..=4),
         });
         let nq = 6;
         let (lo, hi): (i64, i64) = match kind {
-            Kind::Bin => (0, 1),
-            Kind::Cnt => (0, 4),
-            Kind::Cat => (0, 2),
+            Kind::Bin | Kind::BinZ => (0, 1),
+            Kind::Cnt | Kind::CntZ => (0, 4),
+            Kind::Cat | Kind::CatZ => (0, 2),
             _ => (-6, 6),
         };
         let mut x: Vec<Vec<f64>> = Vec::new();
@@ -324,8 +327,8 @@ fn gen_data(kind: Kind, rng: &mut StdRng, p_fixed: Option<usize>) -> Data {
             _ => {}
         }
         let need = match kind {
-            Kind::Bin => 2,
-            Kind::Cat => 3,
+            Kind::Bin | Kind::BinZ => 2,
+            Kind::Cat | Kind::CatZ => 3,
             _ => 3,
         };
         if (0..p).any(|j| col_distinct(&x, j) < need) {
@@ -372,6 +375,16 @@ fn gen_data(kind: Kind, rng: &mut StdRng, p_fixed: Option<usize>) -> Data {
                 let need_var = matches!(kind, Kind::Cls2 | Kind::Cls3);
                 if !classes_ok(&x, &y, k, &labels, 3, need_var) {
                     continue;
+                }
+                if matches!(kind, Kind::BinZ | Kind::CntZ | Kind::CatZ) {
+                    for i in 0..n {
+                        if y[i] == labels[0] {
+                            x[i][0] = if kind == Kind::CatZ { if x[i][0] == 2.0 { 1.0 } else { x[i][0] } } else { 0.0 };
+                        }
+                    }
+                    if (0..p).any(|j| col_distinct(&x, j) < need) {
+                        continue;
+                    }
                 }
             }
         }
@@ -602,7 +615,7 @@ where
         };
         let obj = guard(|| fit(&ind));
         alts.push(Alt { role: "other", how: "indep", data: ind, obj });
-        if !matches!(kind, Kind::Bin | Kind::Cat) {
+        if !matches!(kind, Kind::Bin | Kind::Cat | Kind::BinZ | Kind::CatZ | Kind::CntZ) {
             let c = [2.0, 3.0, -4.0, 5.0][rng.gen_range(0..4)];
             let dy = [1.0, -2.0, 3.0][rng.gen_range(0..3)];
             let sh = shifted(&d, c, dy, true);
@@ -630,6 +643,15 @@ fn m32(ty: &'static str, cfg: &str, det: bool, sup: bool) -> Meta {
 // observation helpers -------------------------------------------------------------------------
 
 type PartList = Vec<(&'static str, Result<ObsB, Failed>)>;
+
+/// a panic inside ONE method call becomes that method's refusal (status "err"), so that the
+/// other methods of the same object are still observed
+fn gp<R, F: FnOnce() -> Result<R, Failed>>(f: F) -> Result<R, Failed> {
+    match guard(f) {
+        Ok(r) => r,
+        Err(msg) => Err(Failed::predict(&format!("panic: {}", msg))),
+    }
+}
 
 fn counts(v: &[usize]) -> ObsB {
     ObsB::disc(v.iter().map(|x| *x as f64).collect())
@@ -799,27 +821,50 @@ fn gen_models(path: &str) {
     // ---- naive Bayes -------------------------------------------------------------------------
     drive(cx, next(), reps, m("GaussianNB", "default", true, true), Kind::Cls3, None,
         |d: &Data| GaussianNB::fit(&mat::<f64>(&d.x), &d.y, Default::default()),
-        |o: &GaussianNB<f64, M64>, d: &Data| -> PartList { vec![("predict", o.predict(&mat(&d.q)).map(ObsB::disc)),
+        |o: &GaussianNB<f64, M64>, d: &Data| -> PartList { vec![("predict", gp(|| o.predict(&mat(&d.q)).map(ObsB::disc))),
             ("classes", Ok(ObsB::disc(o.classes().clone()))), ("class_count", Ok(counts(o.class_count()))),
             ("class_priors", Ok(ObsB::cont(o.class_priors().clone()))), ("theta", Ok(vals2(o.theta()))), ("var", Ok(vals2(o.var())))] },
         Some(|a, b| a == b));
     drive(cx, next(), reps, m("BernoulliNB", "alpha=1", true, true), Kind::Bin, None,
         |d: &Data| BernoulliNB::fit(&mat::<f64>(&d.x), &d.y, BernoulliNBParameters::default()),
-        |o: &BernoulliNB<f64, M64>, d: &Data| -> PartList { vec![("predict", o.predict(&mat(&d.q)).map(ObsB::disc)),
+        |o: &BernoulliNB<f64, M64>, d: &Data| -> PartList { vec![("predict", gp(|| o.predict(&mat(&d.q)).map(ObsB::disc))),
             ("classes", Ok(ObsB::disc(o.classes().clone()))), ("class_count", Ok(counts(o.class_count()))),
             ("n_features", Ok(counts(&[o.n_features()]))), ("feature_count", Ok(counts2(o.feature_count()))),
             ("feature_log_prob", Ok(vals2(o.feature_log_prob())))] },
         Some(|a, b| a == b));
     drive(cx, next(), reps, m("MultinomialNB", "alpha=1", true, true), Kind::Cnt, None,
         |d: &Data| MultinomialNB::fit(&mat::<f64>(&d.x), &d.y, MultinomialNBParameters::default()),
-        |o: &MultinomialNB<f64, M64>, d: &Data| -> PartList { vec![("predict", o.predict(&mat(&d.q)).map(ObsB::disc)),
+        |o: &MultinomialNB<f64, M64>, d: &Data| -> PartList { vec![("predict", gp(|| o.predict(&mat(&d.q)).map(ObsB::disc))),
             ("classes", Ok(ObsB::disc(o.classes().clone()))), ("class_count", Ok(counts(o.class_count()))),
             ("n_features", Ok(counts(&[o.n_features()]))), ("feature_count", Ok(counts2(o.feature_count()))),
             ("feature_log_prob", Ok(vals2(o.feature_log_prob())))] },
         Some(|a, b| a == b));
     drive(cx, next(), reps, m("CategoricalNB", "alpha=1", true, true), Kind::Cat, None,
         |d: &Data| CategoricalNB::fit(&mat::<f64>(&d.x), &d.y, CategoricalNBParameters::default()),
-        |o: &CategoricalNB<f64, M64>, d: &Data| -> PartList { vec![("predict", o.predict(&mat(&d.q)).map(ObsB::disc)),
+        |o: &CategoricalNB<f64, M64>, d: &Data| -> PartList { vec![("predict", gp(|| o.predict(&mat(&d.q)).map(ObsB::disc))),
+            ("classes", Ok(ObsB::disc(o.classes().clone()))), ("class_count", Ok(counts(o.class_count()))),
+            ("n_features", Ok(counts(&[o.n_features()]))), ("n_categories", Ok(counts(o.n_categories()))),
+            ("category_count", Ok(counts3(o.category_count()))), ("feature_log_prob", Ok(vals3(o.feature_log_prob())))] },
+        Some(|a, b| a == b));
+
+    // the same without smoothing on data with structural zeros: the stored log-probabilities contain -inf
+    drive(cx, next(), reps, m("BernoulliNB", "alpha=0", true, true), Kind::BinZ, None,
+        |d: &Data| BernoulliNB::fit(&mat::<f64>(&d.x), &d.y, BernoulliNBParameters::default().with_alpha(0.0)),
+        |o: &BernoulliNB<f64, M64>, d: &Data| -> PartList { vec![("predict", gp(|| o.predict(&mat(&d.q)).map(ObsB::disc))),
+            ("classes", Ok(ObsB::disc(o.classes().clone()))), ("class_count", Ok(counts(o.class_count()))),
+            ("n_features", Ok(counts(&[o.n_features()]))), ("feature_count", Ok(counts2(o.feature_count()))),
+            ("feature_log_prob", Ok(vals2(o.feature_log_prob())))] },
+        Some(|a, b| a == b));
+    drive(cx, next(), reps, m("MultinomialNB", "alpha=0", true, true), Kind::CntZ, None,
+        |d: &Data| MultinomialNB::fit(&mat::<f64>(&d.x), &d.y, MultinomialNBParameters::default().with_alpha(0.0)),
+        |o: &MultinomialNB<f64, M64>, d: &Data| -> PartList { vec![("predict", gp(|| o.predict(&mat(&d.q)).map(ObsB::disc))),
+            ("classes", Ok(ObsB::disc(o.classes().clone()))), ("class_count", Ok(counts(o.class_count()))),
+            ("n_features", Ok(counts(&[o.n_features()]))), ("feature_count", Ok(counts2(o.feature_count()))),
+            ("feature_log_prob", Ok(vals2(o.feature_log_prob())))] },
+        Some(|a, b| a == b));
+    drive(cx, next(), reps, m("CategoricalNB", "alpha=0", true, true), Kind::CatZ, None,
+        |d: &Data| CategoricalNB::fit(&mat::<f64>(&d.x), &d.y, CategoricalNBParameters::default().with_alpha(0.0)),
+        |o: &CategoricalNB<f64, M64>, d: &Data| -> PartList { vec![("predict", gp(|| o.predict(&mat(&d.q)).map(ObsB::disc))),
             ("classes", Ok(ObsB::disc(o.classes().clone()))), ("class_count", Ok(counts(o.class_count()))),
             ("n_features", Ok(counts(&[o.n_features()]))), ("n_categories", Ok(counts(o.n_categories()))),
             ("category_count", Ok(counts3(o.category_count()))), ("feature_log_prob", Ok(vals3(o.feature_log_prob())))] },
@@ -903,7 +948,7 @@ fn gen_models(path: &str) {
                 let r = if radius { o.find_radius(q, 4.0)? } else { o.find(q, 3)? };
                 Ok(r.into_iter().map(|(i, dist, _)| (i, dist)).collect())
             }),
-            None);
+            Some(|a, b| a == b));
     }
 
     // ---- distances and kernels (no PartialEq: the equality clauses do not apply) ---------------
